@@ -362,6 +362,9 @@ Section Log.
   Qed.
 End Log.
 
+Lemma report_allowed_ok d x h : d_report_early d = false -> report_allowed d x h = true -> h <= chain x.
+Proof. unfold report_allowed. intros -> H. cbn [andb] in H. rewrite orb_false_r in H. apply N.leb_le. exact H. Qed.
+
 (** * The raft replica *)
 Section Raft.
   Variable d : Defects.
@@ -633,7 +636,7 @@ Section Raft.
       + inversion Hst; subst s' o. clear Hst. split; [exact I|].
         unfold shadow_step. rewrite H3; try rewrite Eq; cbn. unfold shadow_ok. cbn. repeat split. exact H1.
     - (* OReport *)
-      destruct (h <=? chain (ex s)); [|discriminate].
+      destruct (report_allowed d (ex s) h); [|discriminate].
       destruct (alookup N.eqb h (bai (mem s))).
       + inversion Hst; subst s' o. clear Hst. split; [exact I|].
         apply (shadow_default sh s); cbn; try exact I; try reflexivity; try assumption; try lia. rewrite app_nil_r. reflexivity.
@@ -695,6 +698,8 @@ Section Raft.
   Definition Inv (s : rsys) : Prop := MI (mem s) /\ QI (mem s) (ex s) /\ DI s.
 
   Definition repaired_rest : Prop := d_snap_unexecuted d = false /\ d_snapin_lost d = false.
+  (** the glue assumption: ReportState(h) reaches the node only after block h is durable *)
+  Definition glue_ok : Prop := d_report_early d = false.
 
   Lemma MI_frame m m' : lastExec m' = lastExec m -> applied m' = applied m -> bai m' = bai m -> MI m -> MI m'.
   Proof. unfold MI. intros -> -> ->. tauto. Qed.
@@ -713,10 +718,10 @@ Section Raft.
   Qed.
 
   Lemma rstep_inv s op s' o :
-    safe -> repaired_rest -> Inv s -> rstep d c lg s op = Some (s', o) ->
+    safe -> repaired_rest -> glue_ok -> Inv s -> rstep d c lg s op = Some (s', o) ->
     Inv s' /\ Forall acc (o_ev o).
   Proof.
-    intros Hsafe [Hns Hni] [HMI [HQI HDI]] Hst.
+    intros Hsafe [Hns Hni] Hglue [HMI [HQI HDI]] Hst.
     pose proof HQI as [Hq1 [Hq2 Hq3]]. pose proof HDI as [Hd1 [Hd2 [Hd3 Hd4]]].
     destruct op; cbn [rstep] in Hst.
     - (* OAppend *)
@@ -761,7 +766,7 @@ Section Raft.
         * split; [exact Hq'|]. split; [rewrite Hh; exact Hq2|]. cbn [length] in Hq3. lia.
         * split; [lia|]. split; [destruct Hd2 as [[H1 H2]|H]; [left; split; lia|right; exact H]|]. split; assumption.
     - (* OReport *)
-      destruct (h <=? chain (ex s)) eqn:Eh; [|discriminate]. apply N.leb_le in Eh.
+      destruct (report_allowed d (ex s) h) eqn:Eh; [|discriminate]. apply (report_allowed_ok _ _ _ Hglue) in Eh.
       destruct (alookup N.eqb h (bai (mem s))) as [i|] eqn:El.
       + inversion Hst; subst s' o. clear Hst. split; [|constructor].
         destruct HMI as [Ha [Hb [k [v [[Hv Hall] Hx]]]]].
@@ -845,7 +850,7 @@ Section Raft.
     - destruct (queue (ex s)) as [|[i [h t]] q] eqn:Eq.
       + inversion Hst; subst. right. split; [reflexivity|intros _; reflexivity].
       + inversion Hst; subst. left. split; [reflexivity|]. exists i, h, t, q. split; reflexivity.
-    - destruct (h <=? chain (ex s)); [|discriminate].
+    - destruct (report_allowed d (ex s) h); [|discriminate].
       destruct (alookup N.eqb h (bai (mem s))); inversion Hst; subst; right; (split; [reflexivity|discriminate]).
     - match type of Hst with (if ?cnd then _ else _) = _ => destruct cnd; [|discriminate] end.
       inversion Hst; subst. right. split; [reflexivity|discriminate].
@@ -857,19 +862,19 @@ Section Raft.
   Qed.
 
   Lemma rrun_inv ops : forall s sh tr,
-    safe -> repaired_rest -> Inv s -> shadow_ok sh s -> rrun d c lg s ops = Some tr ->
+    safe -> repaired_rest -> glue_ok -> Inv s -> shadow_ok sh s -> rrun d c lg s ops = Some tr ->
     Forall (is_canon (c_init c) lg) (all_events tr)
     /\ Forall (st_noskip (c_init c) lg) tr
     /\ Forall (is_canon (c_init c) lg) (executed sh ops tr)
     /\ contig_from (chain (ex s)) (executed sh ops tr).
   Proof.
-    induction ops as [|op ops IH]; intros s sh tr Hsafe Hns HInv Hsh Hr; cbn [rrun] in Hr.
+    induction ops as [|op ops IH]; intros s sh tr Hsafe Hns Hgl HInv Hsh Hr; cbn [rrun] in Hr.
     - inversion Hr; subst. cbn. repeat split; constructor.
     - destruct (rstep d c lg s op) as [[s' o]|] eqn:Es; [|discriminate].
       destruct (rrun d c lg s' ops) as [tr'|] eqn:Er; [|discriminate]. inversion Hr; subst tr. clear Hr.
-      destruct (rstep_inv s op s' o Hsafe Hns HInv Es) as [HInv' Hacc].
+      destruct (rstep_inv s op s' o Hsafe Hns Hgl HInv Es) as [HInv' Hacc].
       destruct (rstep_shadow sh s op s' o Hsh Es) as [_ Hsh'].
-      destruct (IH s' _ tr' Hsafe Hns HInv' Hsh' Er) as [I1 [I2 [I3 I4]]].
+      destruct (IH s' _ tr' Hsafe Hns Hgl HInv' Hsh' Er) as [I1 [I2 [I3 I4]]].
       split; [|split; [|]].
       + unfold all_events. cbn [flat_map]. apply Forall_app. split; [|exact I1].
         cbn [obs_of b_ev]. apply Forall_forall. intros b Hb. apply in_map_iff in Hb. destruct Hb as [ib [<- Hib]].
@@ -901,25 +906,25 @@ Section Raft.
   Proof. apply rrun_contiguous. apply shadow_init_ok. Qed.
 
   Theorem canonical_all ops tr :
-    safe -> repaired_rest ->
+    safe -> repaired_rest -> glue_ok ->
     rrun d c lg (init_sys d c) ops = Some tr -> canonical (c_init c) lg tr.
   Proof.
-    intros Hs Hn Hr. destruct (rrun_inv ops _ _ tr Hs Hn Inv_init shadow_init_ok Hr) as [H _]. exact H.
+    intros Hs Hn Hg Hr. destruct (rrun_inv ops _ _ tr Hs Hn Hg Inv_init shadow_init_ok Hr) as [H _]. exact H.
   Qed.
 
   Theorem none_skipped_all ops tr :
-    safe -> repaired_rest ->
+    safe -> repaired_rest -> glue_ok ->
     rrun d c lg (init_sys d c) ops = Some tr -> none_skipped (c_init c) lg tr.
   Proof.
-    intros Hs Hn Hr. destruct (rrun_inv ops _ _ tr Hs Hn Inv_init shadow_init_ok Hr) as [_ [H _]]. exact H.
+    intros Hs Hn Hg Hr. destruct (rrun_inv ops _ _ tr Hs Hn Hg Inv_init shadow_init_ok Hr) as [_ [H _]]. exact H.
   Qed.
 
   Theorem executed_prefix ops tr :
-    safe -> repaired_rest ->
+    safe -> repaired_rest -> glue_ok ->
     rrun d c lg (init_sys d c) ops = Some tr ->
     is_prefix (executed (shadow_init (c_init c)) ops tr) (canon_blocks (c_init c) lg).
   Proof.
-    intros Hs Hn Hr. destruct (rrun_inv ops _ _ tr Hs Hn Inv_init shadow_init_ok Hr) as [_ [_ [H1 H2]]].
+    intros Hs Hn Hg Hr. destruct (rrun_inv ops _ _ tr Hs Hn Hg Inv_init shadow_init_ok Hr) as [_ [_ [H1 H2]]].
     apply (contig_prefix _ (c_init c)); [exact H2 | apply canon_blocks_contig|].
     intros b Hb. rewrite Forall_forall in H1. exact (H1 b Hb).
   Qed.
@@ -976,14 +981,14 @@ Proof. intro H. apply contiguous_above; [apply sh_wf_init | eapply contiguous_al
 
 (** * Replicas applying the same log *)
 Theorem same_content d c1 c2 lg ops1 ops2 tr1 tr2 :
-  c_init c1 = c_init c2 -> safe d c1 lg -> repaired_rest d ->
+  c_init c1 = c_init c2 -> safe d c1 lg -> repaired_rest d -> glue_ok d ->
   rrun d c1 lg (init_sys d c1) ops1 = Some tr1 -> rrun d c2 lg (init_sys d c2) ops2 = Some tr2 ->
   forall a b, In a (all_events tr1) -> In b (all_events tr2) -> fst a = fst b -> a = b.
 Proof.
-  intros Hi Hs Hn H1 H2 a b Ha Hb Hab.
+  intros Hi Hs Hn Hg H1 H2 a b Ha Hb Hab.
   assert (Hs2 : safe d c2 lg) by (unfold safe in *; rewrite <- Hi; exact Hs).
-  pose proof (canonical_all d c1 lg ops1 tr1 Hs Hn H1) as C1.
-  pose proof (canonical_all d c2 lg ops2 tr2 Hs2 Hn H2) as C2.
+  pose proof (canonical_all d c1 lg ops1 tr1 Hs Hn Hg H1) as C1.
+  pose proof (canonical_all d c2 lg ops2 tr2 Hs2 Hn Hg H2) as C2.
   unfold canonical in *. rewrite Forall_forall in C1, C2. rewrite <- Hi in C2.
   eapply canon_functional; [apply C1; exact Ha | apply C2; exact Hb | exact Hab].
 Qed.
@@ -1113,7 +1118,7 @@ Proof.
   - cbn [rstep] in Hst. destruct (avail s <? N.of_nat (length lg)); [|discriminate]. inversion Hst; subst. cbn. lia.
   - destruct (ready_entry_once _ _ _ _ _ _ _ _ _ _ Hst) as [_ [_ H]]. exact H.
   - cbn [rstep] in Hst. destruct (queue (ex s)) as [|[i [h t]] q]; inversion Hst; subst; cbn; lia.
-  - cbn [rstep] in Hst. destruct (h <=? chain (ex s)); [|discriminate].
+  - cbn [rstep] in Hst. destruct (report_allowed d (ex s) h); [|discriminate].
     destruct (alookup N.eqb h (bai (mem s))); inversion Hst; subst; cbn; lia.
   - cbn [rstep] in Hst.
     match type of Hst with (if ?cnd then _ else _) = _ => destruct cnd eqn:Ec; [|discriminate] end.
@@ -1271,7 +1276,7 @@ Proof.
     destruct ((c_snap c <=? applied (after_elected m1 app) - snapIdx (after_elected m1 app)) &&
               snap_guard d (after_elected m1 app) (ex s)); cbn [leader]; rewrite Hae, Hl, Hlc; destruct lead; reflexivity.
   - destruct (queue (ex s)) as [|[i [h t]] q]; inversion Hst; subst; reflexivity.
-  - destruct (h <=? chain (ex s)); [|discriminate].
+  - destruct (report_allowed d (ex s) h); [|discriminate].
     destruct (alookup N.eqb h (bai (mem s))); inversion Hst; subst; reflexivity.
   - match type of Hst with (if ?cnd then _ else _) = _ => destruct cnd; [|discriminate] end.
     inversion Hst; subst. reflexivity.
@@ -1490,9 +1495,9 @@ Section Equiv.
     - exists (c_init c). eexists. split; [cbn; rewrite N.eqb_refl; reflexivity|]. intros kv [<-|[]]. cbn. lia.
   Qed.
 
-  Lemma rstep_Inv2 s op s' o : Inv2 s -> rstep d c lg s op = Some (s', o) -> Inv2 s'.
+  Lemma rstep_Inv2 s op s' o : d_report_early d = false -> Inv2 s -> rstep d c lg s op = Some (s', o) -> Inv2 s'.
   Proof.
-    intros [HM [Hq [Hcon [Hlen [Hp Hci]]]]] Hst. destruct op; cbn [rstep] in Hst.
+    intros Hglue [HM [Hq [Hcon [Hlen [Hp Hci]]]]] Hst. destruct op; cbn [rstep] in Hst.
     - destruct (avail s <? N.of_nat (length lg)); [|discriminate]. inversion Hst; subst. unfold Inv2. cbn. auto 10.
     - destruct ((1 <=? lo) && (lo <=? applied (mem s) + 1) && (hi <=? app) && (app <=? avail s)
                 && (stored (disk s) <=? app) && (lo <=? hi + 1)) eqn:Eg; [|discriminate].
@@ -1523,7 +1528,7 @@ Section Equiv.
         cbn [map snd contig_from fst] in Hcon. destruct Hcon as [Hh Hcon]. cbn [length] in Hlen.
         unfold Inv2. cbn. split; [exact HM|]. split; [exact Hq'|]. split; [rewrite Hh; exact Hcon|]. split; [lia|].
         split; [eapply low_entry_mono; [|exact Hp]; lia|]. right. exists h, t. split; [exact He|lia].
-    - destruct (h <=? chain (ex s)) eqn:Eh; [|discriminate]. apply N.leb_le in Eh.
+    - destruct (report_allowed d (ex s) h) eqn:Eh; [|discriminate]. apply (report_allowed_ok _ _ _ Hglue) in Eh.
       destruct (alookup N.eqb h (bai (mem s))) as [i|] eqn:El.
       + inversion Hst; subst s' o. clear Hst. destruct HM as [Hb [k [v [Hv Hall]]]].
         destruct (Hb _ (alookup_in _ _ _ El)) as [Hk1 Hk2]. cbn [fst snd] in Hk1, Hk2.
@@ -1580,14 +1585,40 @@ Section Equiv.
     apply entries_to_apply_consec; [rewrite Hf2; exact Hlo | apply seg_consec].
   Qed.
 
-  Theorem rrun_lt_eq ops : forall s, Inv2 s -> rrun_lt d c lg s ops = rrun d c lg s ops.
+  Theorem rrun_lt_eq ops : d_report_early d = false -> forall s, Inv2 s -> rrun_lt d c lg s ops = rrun d c lg s ops.
   Proof.
-    induction ops as [|op ops IH]; intros s HI; [reflexivity|]. cbn [rrun_lt rrun].
+    intro Hg. induction ops as [|op ops IH]; intros s HI; [reflexivity|]. cbn [rrun_lt rrun].
     rewrite (rstep_lt_eq s op HI). destruct (rstep d c lg s op) as [[s' o]|] eqn:Es; [|reflexivity].
-    rewrite (IH s' (rstep_Inv2 _ _ _ _ HI Es)). reflexivity.
+    rewrite (IH s' (rstep_Inv2 _ _ _ _ Hg HI Es)). reflexivity.
   Qed.
 
   Theorem index_check_equality_redundant ops :
+    d_report_early d = false ->
     rrun_lt d c lg (init_sys d c) ops = rrun d c lg (init_sys d c) ops.
-  Proof. apply rrun_lt_eq. apply Inv2_init. Qed.
+  Proof. intro Hg. apply rrun_lt_eq; [exact Hg|apply Inv2_init]. Qed.
 End Equiv.
+
+(** * The glue assumption on traces *)
+Lemma reports_durable_b_spec ops : forall sh tr, reports_durable_b sh ops tr = true <-> reports_durable sh ops tr.
+Proof.
+  induction ops as [|op ops IH]; intros sh tr; cbn [reports_durable_b reports_durable]; [tauto|].
+  destruct tr as [|o tr]; [tauto|]. rewrite andb_true_iff, IH.
+  destruct op; try tauto. rewrite N.leb_le. tauto.
+Qed.
+
+Lemma rrun_reports_durable d c lg ops : d_report_early d = false -> forall s sh tr,
+  shadow_ok sh s -> rrun d c lg s ops = Some tr -> reports_durable sh ops tr.
+Proof.
+  intro Hg. induction ops as [|op ops IH]; intros s sh tr Hsh Hr; cbn [rrun] in Hr; [inversion Hr; exact I|].
+  destruct (rstep d c lg s op) as [[s' o]|] eqn:Es; [|discriminate].
+  destruct (rrun d c lg s' ops) as [tr'|] eqn:Er; [|discriminate]. inversion Hr; subst tr. clear Hr.
+  destruct (rstep_shadow d c lg sh s op s' o Hsh Es) as [_ Hsh'].
+  cbn [reports_durable]. split; [|eapply IH; [exact Hsh'|exact Er]].
+  destruct op; try exact I. cbn [rstep] in Es.
+  destruct (report_allowed d (ex s) h) eqn:Eh; [|discriminate].
+  apply (report_allowed_ok _ _ _ Hg) in Eh. destruct Hsh as [_ [H2 _]]. rewrite H2. exact Eh.
+Qed.
+
+Theorem reports_durable_all d c lg ops tr : d_report_early d = false ->
+  rrun d c lg (init_sys d c) ops = Some tr -> reports_durable (shadow_init (c_init c)) ops tr.
+Proof. intros Hg Hr. eapply rrun_reports_durable; [exact Hg|apply shadow_init_ok|exact Hr]. Qed.
